@@ -34,12 +34,60 @@
                 polyline within 6 px of each other (C17_catmull_simplification_hausdorff);
        linear   distance 0 (C17_linear_exact).
 
+   Proved, IEEE binary32 against the EXACT curve of the same binary32 control
+   points (T17f; finite coordinates |c| <= 2^E; Proofs/VertexIEEE*.v):
+     linear   the computed vertices ARE the control points (C17_linear_ieee_exact);
+     Catmull  every computed vertex coordinate within E_cat E = 72 * 2^(E-24) of
+              the Catmull-Rom polynomial at k/50 resp. (k+1)/50 -- the rounding
+              of t = fl(k/50) included (C17_catmull_vertex_ieee); in the plane:
+              vertices within 3/2 E_cat E, chord points within S/8/2500 +
+              3/2 E_cat E of the curve point of the same parameter
+              (C17_catmull_span_hausdorff_ieee, C17_catmull_hausdorff_ieee; the
+              last span uses the COMPUTED phantom point fl(2 v3 - v2), which is
+              within 3 * 2^(E-24) of 2 v3 - v2: C17_catmull_phantom_point);
+              osu! mode: the simplification loop as computed (binary32
+              distance widened to binary64, compared with 6.0) keeps the
+              kept and the full computed polyline within 6 + 2^-19 of each
+              other, both ways, for vertices within 2^20
+              (C17_catmull_simplification_hausdorff_ieee; control points
+              within 2^16: C17_catmull_then_simplify_ieee);
+     Bezier   for n * 2^E <= 2^22 (so the loop returns at depth <= 19, T01g):
+              the two-sided Hausdorff bound Kbez (n-1) + E_bez E (n-1) 19
+              between the polyline emitted by the binary32 subdivision loop
+              and the exact Bezier curve -- vertices, chord points and curve
+              points (C17_bezier_hausdorff_ieee; C17_bezier_hausdorff_ieee_depth
+              for any depth bound d of the binary32 tree); E_bez is explicit
+              (pin_E_bez), e.g. <= 1/40 for cubic segments with |c| <= 1024;
+              the same with the smaller allowance E_bez_t (pin_E_bez_t), whose
+              only depth-dependent term is 3/2 (k + 1) m u: for cubics
+              E_bez_t E 3 19 <= 2^-19 + 161 * 2^(E-25)
+              (C17_bezier_hausdorff_ieee_tight, C17_E_bez_t_cubic).
+
+     arc      under explicit accuracy hypotheses on libm's sin / cos (finite,
+              |result| <= 1, within el of the real function; hypotheses of the
+              theorem, not axioms): every vertex of the emitted arc is within
+              E_arc E el = 2^E (el + 2^-47) + 2^(E-23) per coordinate of the
+              vertex of the EXACT arc with the same centre, radius, start
+              angle, range and number of points -- the real numbers denoted by
+              the computed arc properties (C17_arc_vertex_ieee,
+              C17_arc_vertices_ieee; the binary64 angle arithmetic:
+              C17_arc_angle_ieee, 2^-47); hence the two-sided bound
+              sag_n + 3/2 E_arc between the emitted polyline and that exact
+              arc, sag_n = r (1 - cos (range / (2 (n - 1)))) being the sagitta
+              for the number of points n the code computed
+              (C17_arc_hausdorff_ieee_partial; over the reals for any n:
+              C17_arc_hausdorff_any_count).
+
    NOT proved (the property stays PARTIAL for this reason only):
-     - the IEEE rounding error of the binary32 / binary64 evaluation (the
-       computed vertices vs. the vertices of the real instance), and libm's
-       error in sin / cos / acosf / atan2.  It is MEASURED by the oracle of
-       harness/src/c17.rs against curves evaluated in f64, with the exact
-       bounds above plus an explicit rounding slack;
+     - circular arcs, the rest: (i) sag_n <= 4 * tolerance for the COMPUTED
+       number of points (C17_arc_hausdorff is about the count taken over the
+       reals; the computed count goes through acosf, a binary32 division and
+       ceil), (ii) the error of the computed centre, radius, start angle and
+       range themselves against the circle through the three control points
+       (circum-centre cancellation, atan2), (iii) that libm meets the accuracy
+       hypotheses.  These are MEASURED by the oracle of harness/src/c17.rs
+       against curves evaluated in f64, with the exact bounds above plus an
+       explicit rounding slack;
      - that the second control point of a perfect curve lies on the arc that
        is run through (the direction choice), and the angle of the last
        vertex: T17d has the end points under libm hypotheses only;
@@ -48,7 +96,10 @@
 From RM Require Import Model.ControlPoints Model.Curve Gen.Generated Proofs.BezierRefine Proofs.PathFacts
   Proofs.CatmullFacts Proofs.ArcExact Proofs.DeCasteljau Proofs.BezierTermination Proofs.SimplifyExact
   Proofs.HausdorffPlane Proofs.HausdorffArc Proofs.HausdorffBezierCore Proofs.HausdorffBezier
-  Proofs.HausdorffCatmull Proofs.HausdorffCatmullDeriv Proofs.HausdorffSimplify.
+  Proofs.HausdorffCatmull Proofs.HausdorffCatmullDeriv Proofs.HausdorffSimplify
+  Proofs.BezierIEEE Proofs.BezierIEEETight Proofs.VertexIEEEBase Proofs.VertexIEEECatmull Proofs.VertexIEEECatmullPath
+  Proofs.VertexIEEEBezierScalar Proofs.VertexIEEEBezier Proofs.VertexIEEEBezierPath Proofs.VertexIEEEBezierTight Proofs.VertexIEEEArc Proofs.VertexIEEEArcPath Proofs.VertexIEEESimplify.
+From Flocq Require Import Core BinarySingleNaN.
 From Coq Require Import Reals.
 Open Scope Z_scope.
 
@@ -530,3 +581,479 @@ Proof. exact simplify_example. Qed.
 Theorem C17_linear_exact : forall l : list (R * R), HD 0 l l.
 Proof. intros l. apply HD_refl. apply Rle_refl. Qed.
 Print Assumptions C17_linear_exact.
+
+(* ================================================================== *)
+(* T17f [IEEE binary32 vs the exact curve of the same control points]   *)
+(* ================================================================== *)
+
+(* hypotheses: finite coordinates of magnitude <= 2^E *)
+Example pin_point_ok : forall E p,
+  point_ok E p <-> ((is_finite (px p) = true /\ (Rabs (B2R (px p)) <= bpow radix2 E)%R) /\
+                    (is_finite (py p) = true /\ (Rabs (B2R (py p)) <= bpow radix2 E)%R)).
+Proof. intros. reflexivity. Qed.
+Example pin_coordU : forall E k x,
+  coordU E k x <-> (is_finite x = true /\ (Rabs (B2R x) <= k * bpow radix2 E)%R).
+Proof. intros. reflexivity. Qed.
+Example pin_posR : forall p, posR p = (B2R (px p), B2R (py p)).
+Proof. intros. reflexivity. Qed.
+
+(* ---------- linear ---------- *)
+
+(* the computed sub-path is the list of control points itself (IEEE, every
+   input): the real points of the computed vertices are the real control
+   points, distance 0 *)
+Theorem C17_linear_ieee_exact :
+  forall (B : Type) (bezier : list Pos -> list Pos -> B -> outcome (list Pos * B)) lm osu path sub opt b,
+  calculate_subpath bezier lm osu path sub Linear opt b = Done (path ++ sub, opt, b) /\
+  HD 0 (map posR sub) (map posR sub).
+Proof. intros. split; [apply @linear_copies|]. apply HD_refl. apply Rle_refl. Qed.
+Print Assumptions C17_linear_ieee_exact.
+
+(* ---------- Catmull ---------- *)
+
+Example pin_E_cat : forall E, E_cat E = (72 * bpow radix2 (E - 24))%R.
+Proof. reflexivity. Qed.
+
+(* one coordinate of one vertex: control values v1 v2 v3 within 2^E, v4 within
+   3 * 2^E (it may be the phantom point), t any binary32 number of [0, 1]
+   within 2^-25 of the intended parameter q *)
+Theorem C17_catmull_vertex_ieee :
+  forall E v1 v2 v3 v4 t (q : R), 0 <= E <= 100 ->
+  coordU E 1 v1 -> coordU E 1 v2 -> coordU E 1 v3 -> coordU E 3 v4 ->
+  is_finite t = true -> (0 <= B2R t <= 1)%R -> (0 <= q <= 1)%R -> (Rabs (B2R t - q) <= bpow radix2 (-25))%R ->
+  is_finite (catmull_eval (catmull_coord v1 v2 v3 v4) t) = true /\
+  (Rabs (B2R (catmull_eval (catmull_coord v1 v2 v3 v4) t)
+         - catmull_rom (B2R v1) (B2R v2) (B2R v3) (B2R v4) q) <= E_cat E)%R.
+Proof. exact catmull_vertex_coord. Qed.
+Print Assumptions C17_catmull_vertex_ieee.
+
+(* the parameters the code uses: fl(c / 50) and fl(fl(c + 1) / 50) *)
+Theorem C17_catmull_parameters_ieee :
+  forall c, (c < 50)%nat ->
+  let ta := S.div (S.of_Z (Z.of_nat c)) catmull_detail_f in
+  let tb := S.div (S.add (S.of_Z (Z.of_nat c)) S.one) catmull_detail_f in
+  (is_finite ta = true /\ (0 <= B2R ta <= 1)%R /\ (Rabs (B2R ta - INR c / 50) <= bpow radix2 (-25))%R) /\
+  (is_finite tb = true /\ (0 <= B2R tb <= 1)%R /\ (Rabs (B2R tb - (INR c + 1) / 50) <= bpow radix2 (-25))%R).
+Proof. intros c Hc. split; [apply catmull_param_a|apply catmull_param_b]; exact Hc. Qed.
+Print Assumptions C17_catmull_parameters_ieee.
+
+Example pin_vertex_near : forall e p q,
+  vertex_near e p q <->
+  ((is_finite (px p) = true /\ is_finite (py p) = true) /\
+   (Rabs (B2R (px p) - fst q) <= e)%R /\ (Rabs (B2R (py p) - snd q) <= e)%R).
+Proof. intros. reflexivity. Qed.
+
+(* the 100 vertices of one span, as computed by the model *)
+Theorem C17_catmull_subpath_ieee :
+  forall E v1 v2 v3 v4, 0 <= E <= 100 ->
+  pointU E 1 v1 -> pointU E 1 v2 -> pointU E 1 v3 -> pointU E 3 v4 ->
+  let path := catmull_subpath v1 v2 v3 v4 in
+  length path = 100%nat /\
+  forall k, (k < 50)%nat ->
+    vertex_near (E_cat E) (nth (2 * k) path pos0) (crP (posR v1) (posR v2) (posR v3) (posR v4) (INR k / 50)) /\
+    vertex_near (E_cat E) (nth (S (2 * k)) path pos0) (crP (posR v1) (posR v2) (posR v3) (posR v4) ((INR k + 1) / 50)).
+Proof. exact catmull_subpath_ieee. Qed.
+Print Assumptions C17_catmull_subpath_ieee.
+
+Example pin_span_follows_ieee : forall bound err v1 v2 v3 v4 path,
+  span_follows_ieee bound err v1 v2 v3 v4 path <->
+  (length path = 100%nat /\
+   forall k, (k < 50)%nat ->
+     (dist2 (crP v1 v2 v3 v4 (INR k / 50)) (nth (2 * k) path (0, 0)%R) <= err)%R /\
+     (dist2 (crP v1 v2 v3 v4 ((INR k + 1) / 50)) (nth (S (2 * k)) path (0, 0)%R) <= err)%R /\
+     forall s, (0 <= s <= 1)%R ->
+       (dist2 (crP v1 v2 v3 v4 ((INR k + s) / 50))
+              (lerp2 (nth (2 * k) path (0, 0)%R) (nth (S (2 * k)) path (0, 0)%R) s) <= bound + err)%R).
+Proof. intros. reflexivity. Qed.
+
+(* one span: the computed polyline against the exact curve (the chords'
+   parameters cover [0, 1]: C17_catmull_chords_cover_the_span) *)
+Theorem C17_catmull_span_hausdorff_ieee :
+  forall E v1 v2 v3 v4 (S : R), 0 <= E <= 100 ->
+  pointU E 1 v1 -> pointU E 1 v2 -> pointU E 1 v3 -> pointU E 3 v4 ->
+  (0 <= S)%R -> second_le S (posR v1) (posR v2) (posR v3) (posR v4) ->
+  span_follows_ieee (S / 8 / 2500) (3 / 2 * E_cat E) (posR v1) (posR v2) (posR v3) (posR v4)
+                    (map posR (catmull_subpath v1 v2 v3 v4)).
+Proof. exact catmull_span_hausdorff_ieee. Qed.
+Print Assumptions C17_catmull_span_hausdorff_ieee.
+
+(* the phantom fourth point of the last span, as computed *)
+Theorem C17_catmull_phantom_point :
+  forall E a b, 0 <= E <= 100 -> coord_ok E a -> coord_ok E b ->
+  coordU E 3 (S.sub (S.mul a s2) b) /\
+  (Rabs (B2R (S.sub (S.mul a s2) b) - (B2R a * 2 - B2R b)) <= 3 * bpow radix2 (E - 24))%R.
+Proof. exact phantom_coord. Qed.
+Print Assumptions C17_catmull_phantom_point.
+
+(* the whole segment: the model's output is the concatenation of the spans'
+   paths; every span (control points: the binary32 points, the last one with
+   the computed phantom point) follows its exact curve within
+   3 L / 10000 + 3/2 E_cat E, L bounding the edges of the spans *)
+Theorem C17_catmull_hausdorff_ieee :
+  forall E points cat (L : R), 0 <= E <= 100 -> Forall (point_ok E) points ->
+  approximate_catmull points = Done cat -> (0 <= L)%R ->
+  let spans := catmull_spans phantom32 (map pair_of points) in
+  Forall (fun sp => span_ok L (spanR sp)) spans ->
+  cat = flat_map span_path32 spans /\
+  Forall (fun sp => let '(v1, v2, v3, v4) := spanR sp in
+            span_follows_ieee (3 * L / 10000) (3 / 2 * E_cat E) v1 v2 v3 v4 (map posR (span_path32 sp))) spans.
+Proof. exact catmull_hausdorff_ieee. Qed.
+Print Assumptions C17_catmull_hausdorff_ieee.
+
+(* the same with the hypothesis on the control points only: consecutive
+   points at most L apart; the edge to the computed phantom point is then at
+   most L + 9/2 * 2^(E-24) long *)
+Theorem C17_catmull_hausdorff_ieee_points :
+  forall E points cat (L : R), 0 <= E <= 100 -> Forall (point_ok E) points ->
+  approximate_catmull points = Done cat -> (0 <= L)%R -> edges_le L (map posR points) ->
+  let spans := catmull_spans phantom32 (map pair_of points) in
+  let L' := (L + 9 / 2 * bpow radix2 (E - 24))%R in
+  cat = flat_map span_path32 spans /\
+  Forall (fun sp => let '(v1, v2, v3, v4) := spanR sp in
+            span_follows_ieee (3 * L' / 10000) (3 / 2 * E_cat E) v1 v2 v3 v4 (map posR (span_path32 sp))) spans.
+Proof. exact catmull_hausdorff_ieee_points. Qed.
+Print Assumptions C17_catmull_hausdorff_ieee_points.
+
+(* osu! mode: the simplification loop AS COMPUTED.  The decisions are the
+   model's (binary32 distance, widened, compared with 6.0); a vertex is only
+   dropped when that test is false, and then its real distance from the start
+   of the group is at most 6 + 2^-19 *)
+Theorem C17_catmull_simplification_test_ieee :
+  forall s c : Pos, point_ok 20 s -> point_ok 20 c ->
+  D.gt (f64_of_f32 (pdist s c)) catmull_simplify_dist = false ->
+  (dist2 (posR s) (posR c) <= 6 + bpow radix2 (-19))%R.
+Proof. exact far_false_dist. Qed.
+Print Assumptions C17_catmull_simplification_test_ieee.
+
+Theorem C17_catmull_simplification_hausdorff_ieee :
+  forall (cat : list Pos) (opt : F64), Forall (point_ok 20) cat ->
+  HD (6 + bpow radix2 (-19)) (map posR cat) (map posR (fst (catmull_simplify cat opt))).
+Proof. exact catmull_simplify_hausdorff_ieee. Qed.
+Print Assumptions C17_catmull_simplification_hausdorff_ieee.
+
+(* the computed Catmull vertices stay within 14 * 2^E <= 2^(E+4) ... *)
+Theorem C17_catmull_vertices_bounded_ieee :
+  forall E points cat, 0 <= E <= 100 -> Forall (point_ok E) points -> approximate_catmull points = Done cat ->
+  Forall (point_ok (E + 4)) cat.
+Proof. exact approximate_catmull_ok. Qed.
+Print Assumptions C17_catmull_vertices_bounded_ieee.
+
+(* ... so the whole Catmull branch of calculate_subpath in osu! mode is
+   covered for control points within 2^16 *)
+Theorem C17_catmull_then_simplify_ieee :
+  forall E points cat opt, 0 <= E <= 16 -> Forall (point_ok E) points -> approximate_catmull points = Done cat ->
+  HD (6 + bpow radix2 (-19)) (map posR cat) (map posR (fst (catmull_simplify cat opt))).
+Proof. exact catmull_then_simplify_ieee. Qed.
+Print Assumptions C17_catmull_then_simplify_ieee.
+
+(* the hypotheses are satisfiable: (0,0) (100,50) (200,0), E = 8 *)
+Example C17_catmull_ieee_nonvacuous :
+  map dump_pos ex_cat = [[0; 0]; [1120403456; 1112014848]; [1128792064; 0]] /\
+  Forall (point_ok 8) ex_cat /\ edges_le 112 (map posR ex_cat) /\ exists cat, approximate_catmull ex_cat = Done cat.
+Proof. split; [exact ex_cat_dump|]. split; [exact ex_cat_ok|]. split; [exact ex_cat_edges|exact ex_cat_runs]. Qed.
+
+(* ---------- Bezier / B-spline ---------- *)
+
+Example pin_uE : forall E, uE E = (bpow radix2 (E - 25) + bpow radix2 (-150))%R.
+Proof. reflexivity. Qed.
+
+(* the rounding allowance: m = degree, k = depth of the subdivision tree *)
+Example pin_E_bez : forall E m k,
+  E_bez E m k =
+  (INR m * (2 * INR m - 1) / 8 * (bpow radix2 (-20) + 3 / 2 * (bpow radix2 (E - 22) + 4 * (INR k * (INR m * uE E))))
+   + 3 / 2 * (INR k * (INR m * uE E) + INR m * uE E + (bpow radix2 (E - 24) + bpow radix2 (-150))))%R.
+Proof. reflexivity. Qed.
+
+Example pin_bez_vertex_ok : forall E points m k p,
+  bez_vertex_ok E points m k p <->
+  ((is_finite (px p) = true /\ is_finite (py p) = true) /\
+   exists t : R, (0 <= t <= 1)%R /\ (dist2 (Bez (map posR points) t) (posR p) <= Kbez m + E_bez E m k)%R).
+Proof. intros. reflexivity. Qed.
+
+(* every vertex the binary32 loop emits (whatever the fuel, whenever it
+   returns) is within Kbez (n-1) + E_bez E (n-1) d of the exact curve, d any
+   bound on the depth of the binary32 subdivision tree *)
+Theorem C17_bezier_vertices_ieee_depth :
+  forall E points n' d path fuel path', 0 <= E <= 40 ->
+  length points = S (S n') -> Forall (point_ok E) points -> within32 d points ->
+  approximate_bezier_L1 fuel path points tt = Done (path', tt) ->
+  exists new, path' = path ++ new ++ [last points pos0] /\
+    Forall (bez_vertex_ok E points (S n') d) new.
+Proof. exact bezier_vertices_ieee_depth. Qed.
+Print Assumptions C17_bezier_vertices_ieee_depth.
+
+(* n * 2^E <= 2^22: depth 19 (T01g, C01) *)
+Theorem C17_bezier_vertices_ieee :
+  forall E points n' path fuel path', 0 <= E -> Z.of_nat (length points) * 2 ^ E <= 2 ^ 22 ->
+  length points = S (S n') -> Forall (point_ok E) points ->
+  approximate_bezier_L1 fuel path points tt = Done (path', tt) ->
+  exists new, path' = path ++ new ++ [last points pos0] /\
+    Forall (bez_vertex_ok E points (S n') 19) new.
+Proof. exact bezier_vertices_ieee. Qed.
+Print Assumptions C17_bezier_vertices_ieee.
+
+(* the two-sided bound: [new] is everything the routine appends (the emitted
+   vertices and the final push of the last control point) *)
+Theorem C17_bezier_hausdorff_ieee_depth :
+  forall E points n' d path fuel path', 0 <= E <= 40 ->
+  length points = S (S n') -> Forall (point_ok E) points -> within32 d points ->
+  approximate_bezier_L1 fuel path points tt = Done (path', tt) ->
+  let K := (Kbez (S n') + E_bez E (S n') d)%R in
+  let B := Bez (map posR points) in
+  exists new, path' = path ++ new /\ (2 <= length new)%nat /\ Forall pos_fin new /\
+    (forall k, (k < length new)%nat ->
+       exists t, (0 <= t <= 1)%R /\ (dist2 (B t) (posR (nth k new pos0)) <= K)%R) /\
+    (forall k s, (S k < length new)%nat -> (0 <= s <= 1)%R ->
+       exists t, (0 <= t <= 1)%R /\
+         (dist2 (B t) (lerp2 (posR (nth k new pos0)) (posR (nth (S k) new pos0)) s) <= K)%R) /\
+    (forall t, (0 <= t <= 1)%R ->
+       exists k s, (S k < length new)%nat /\ (0 <= s <= 1)%R /\
+         (dist2 (B t) (lerp2 (posR (nth k new pos0)) (posR (nth (S k) new pos0)) s) <= K)%R).
+Proof. exact bezier_hausdorff_ieee_depth. Qed.
+Print Assumptions C17_bezier_hausdorff_ieee_depth.
+
+Theorem C17_bezier_hausdorff_ieee :
+  forall E points n' path fuel path', 0 <= E -> Z.of_nat (length points) * 2 ^ E <= 2 ^ 22 ->
+  length points = S (S n') -> Forall (point_ok E) points ->
+  approximate_bezier_L1 fuel path points tt = Done (path', tt) ->
+  let K := (Kbez (S n') + E_bez E (S n') 19)%R in
+  let B := Bez (map posR points) in
+  exists new, path' = path ++ new /\ (2 <= length new)%nat /\ Forall pos_fin new /\
+    (forall k, (k < length new)%nat ->
+       exists t, (0 <= t <= 1)%R /\ (dist2 (B t) (posR (nth k new pos0)) <= K)%R) /\
+    (forall k s, (S k < length new)%nat -> (0 <= s <= 1)%R ->
+       exists t, (0 <= t <= 1)%R /\
+         (dist2 (B t) (lerp2 (posR (nth k new pos0)) (posR (nth (S k) new pos0)) s) <= K)%R) /\
+    (forall t, (0 <= t <= 1)%R ->
+       exists k s, (S k < length new)%nat /\ (0 <= s <= 1)%R /\
+         (dist2 (B t) (lerp2 (posR (nth k new pos0)) (posR (nth (S k) new pos0)) s) <= K)%R).
+Proof. exact bezier_hausdorff_ieee. Qed.
+Print Assumptions C17_bezier_hausdorff_ieee.
+
+(* the same bound with the smaller allowance E_bez_t: the discrepancy between
+   the second differences of a node and of the exact control polygon it stands
+   for does not grow with the depth (fixed point 16/3 m u) *)
+Example pin_E_bez_t : forall E m k,
+  E_bez_t E m k =
+  (INR m * (2 * INR m - 1) / 8 * (bpow radix2 (-20) + 3 / 2 * (bpow radix2 (E - 22) + 16 / 3 * (INR m * uE E)))
+   + 3 / 2 * (INR k * (INR m * uE E) + INR m * uE E + (bpow radix2 (E - 24) + bpow radix2 (-150))))%R.
+Proof. reflexivity. Qed.
+
+Theorem C17_bezier_hausdorff_ieee_tight_depth :
+  forall E points n' d path fuel path', 0 <= E <= 40 ->
+  length points = S (S n') -> Forall (point_ok E) points -> within32 d points ->
+  approximate_bezier_L1 fuel path points tt = Done (path', tt) ->
+  let K := (Kbez (S n') + E_bez_t E (S n') d)%R in
+  let B := Bez (map posR points) in
+  exists new, path' = path ++ new /\ (2 <= length new)%nat /\ Forall pos_fin new /\
+    (forall k, (k < length new)%nat ->
+       exists t, (0 <= t <= 1)%R /\ (dist2 (B t) (posR (nth k new pos0)) <= K)%R) /\
+    (forall k s, (S k < length new)%nat -> (0 <= s <= 1)%R ->
+       exists t, (0 <= t <= 1)%R /\
+         (dist2 (B t) (lerp2 (posR (nth k new pos0)) (posR (nth (S k) new pos0)) s) <= K)%R) /\
+    (forall t, (0 <= t <= 1)%R ->
+       exists k s, (S k < length new)%nat /\ (0 <= s <= 1)%R /\
+         (dist2 (B t) (lerp2 (posR (nth k new pos0)) (posR (nth (S k) new pos0)) s) <= K)%R).
+Proof. exact bezier_hausdorff_ieee_tight_depth. Qed.
+Print Assumptions C17_bezier_hausdorff_ieee_tight_depth.
+
+Theorem C17_bezier_hausdorff_ieee_tight :
+  forall E points n' path fuel path', 0 <= E -> Z.of_nat (length points) * 2 ^ E <= 2 ^ 22 ->
+  length points = S (S n') -> Forall (point_ok E) points ->
+  approximate_bezier_L1 fuel path points tt = Done (path', tt) ->
+  let K := (Kbez (S n') + E_bez_t E (S n') 19)%R in
+  let B := Bez (map posR points) in
+  exists new, path' = path ++ new /\ (2 <= length new)%nat /\ Forall pos_fin new /\
+    (forall k, (k < length new)%nat ->
+       exists t, (0 <= t <= 1)%R /\ (dist2 (B t) (posR (nth k new pos0)) <= K)%R) /\
+    (forall k s, (S k < length new)%nat -> (0 <= s <= 1)%R ->
+       exists t, (0 <= t <= 1)%R /\
+         (dist2 (B t) (lerp2 (posR (nth k new pos0)) (posR (nth (S k) new pos0)) s) <= K)%R) /\
+    (forall t, (0 <= t <= 1)%R ->
+       exists k s, (S k < length new)%nat /\ (0 <= s <= 1)%R /\
+         (dist2 (B t) (lerp2 (posR (nth k new pos0)) (posR (nth (S k) new pos0)) s) <= K)%R).
+Proof. exact bezier_hausdorff_ieee_tight. Qed.
+Print Assumptions C17_bezier_hausdorff_ieee_tight.
+
+(* cubic segments, depth 19, any magnitude 2^E: below 4.8e-6 * 2^E + 2e-6 *)
+Theorem C17_E_bez_t_cubic :
+  forall E, 0 <= E -> (E_bez_t E 3 19 <= 2 * bpow radix2 (-20) + 161 * bpow radix2 (E - 25))%R.
+Proof. exact E_bez_t_cubic. Qed.
+Print Assumptions C17_E_bez_t_cubic.
+
+Example pin_pos_fin : forall p, pos_fin p <-> (is_finite (px p) = true /\ is_finite (py p) = true).
+Proof. intros. reflexivity. Qed.
+
+(* the last vertex (pushed after the loop) is the last control point: the
+   curve's end point, distance 0 *)
+Theorem C17_bezier_last_vertex_ieee :
+  forall points n', length points = S n' ->
+  Bez (map posR points) 1 = posR (last points pos0).
+Proof. exact bez_last_posR. Qed.
+Print Assumptions C17_bezier_last_vertex_ieee.
+
+(* the pieces *)
+Theorem C17_bezier_emitted_coordinate_ieee :
+  forall E p c n, 0 <= E <= 100 -> coord_ok E p -> coord_ok E c -> coord_ok E n ->
+  coord_ok E (tri1 p c n) /\
+  (Rabs (B2R (tri1 p c n) - (B2R p + 2 * B2R c + B2R n) / 4) <= bpow radix2 (E - 24) + bpow radix2 (-150))%R.
+Proof. exact tri1_spec. Qed.
+Print Assumptions C17_bezier_emitted_coordinate_ieee.
+
+Theorem C17_bezier_flat_test_ieee_converse :
+  forall E p c n, 0 <= E <= 40 -> point_ok E p -> point_ok E c -> point_ok E n ->
+  far32 p c n = false ->
+  exists X Y : R,
+    (Rabs (X - (B2R (px p) - 2 * B2R (px c) + B2R (px n))) <= bpow radix2 (E - 22))%R /\
+    (Rabs (Y - (B2R (py p) - 2 * B2R (py c) + B2R (py n))) <= bpow radix2 (E - 22))%R /\
+    (X * X + Y * Y <= 1 / 4 + bpow radix2 (-20))%R.
+Proof. exact far32_false_inv. Qed.
+Print Assumptions C17_bezier_flat_test_ieee_converse.
+
+(* the size of the allowance: cubic segments with |c| <= 1024 *)
+Example C17_E_bez_cubic_1024 : (E_bez 10 3 19 <= 1 / 40)%R.
+Proof. exact E_bez_10_3_19. Qed.
+
+(* the hypotheses are satisfiable: W's example segment
+   `B|131072:-131072|-131072:131072|131072:131072` (E = 17, n = 4) *)
+Example C17_bezier_ieee_nonvacuous :
+  map dump_pos ex_seg = [[0; 0]; [1207959552; 3355443200]; [3355443200; 1207959552]; [1207959552; 1207959552]] /\
+  Forall (point_ok 17) ex_seg /\ Z.of_nat (length ex_seg) * 2 ^ 17 <= 2 ^ 22 /\
+  forall path, exists path', approximate_bezier_L1 bezier_fuel path ex_seg tt = Done (path', tt).
+Proof.
+  split; [exact ex_seg_dump|]. split; [exact ex_seg_ok|]. split; [vm_compute; discriminate|exact ex_seg_terminates_tight].
+Qed.
+
+(* ---------- circular arc ---------- *)
+
+Example pin_E_arc : forall E el, E_arc E el = (bpow radix2 E * (el + bpow radix2 (-47)) + bpow radix2 (E - 23))%R.
+Proof. reflexivity. Qed.
+
+(* the hypotheses on the computed arc properties: centre and radius finite
+   within 2^E, start angle finite within [-4, 4], direction +-1, range finite
+   within [0, 8] *)
+Example pin_arc_props_ok : forall E pr,
+  arc_props_ok E pr <->
+  (point_ok E (a_centre pr) /\ coord_ok E (a_radius pr) /\
+   is_finite (a_theta_start pr) = true /\ (Rabs (B2R (a_theta_start pr)) <= 4)%R /\
+   is_finite (a_direction pr) = true /\ (B2R (a_direction pr) = 1 \/ B2R (a_direction pr) = -1)%R /\
+   is_finite (a_theta_range pr) = true /\ (0 <= B2R (a_theta_range pr) <= 8)%R).
+Proof. intros. reflexivity. Qed.
+
+(* the binary64 angle of vertex i: theta_start + (i / (n - 1)) * (direction * range) *)
+Theorem C17_arc_angle_ieee :
+  forall (ts dir range : F64) (n : Z) (i : nat),
+  is_finite ts = true -> is_finite dir = true -> is_finite range = true ->
+  (Rabs (B2R ts) <= 4)%R -> (B2R dir = 1 \/ B2R dir = -1)%R -> (0 <= B2R range <= 8)%R ->
+  2 <= n <= 1000 -> Z.of_nat i <= n - 1 ->
+  let theta := D.add ts (D.mul (D.div (D.of_Z (Z.of_nat i)) (D.of_Z (n - 1))) (D.mul dir range)) in
+  is_finite theta = true /\
+  (Rabs (B2R theta - (B2R ts + INR i / IZR (n - 1) * (B2R dir * B2R range))) <= bpow radix2 (-47))%R.
+Proof. exact theta_ieee. Qed.
+Print Assumptions C17_arc_angle_ieee.
+
+(* one vertex, libm's accuracy as hypotheses *)
+Theorem C17_arc_vertex_ieee :
+  forall (lm : Libm) (el : R), (0 <= el)%R ->
+  (forall x : F64, is_finite x = true ->
+     is_finite (l_cos lm x) = true /\ (Rabs (B2R (l_cos lm x)) <= 1)%R /\ (Rabs (B2R (l_cos lm x) - cos (B2R x)) <= el)%R) ->
+  (forall x : F64, is_finite x = true ->
+     is_finite (l_sin lm x) = true /\ (Rabs (B2R (l_sin lm x)) <= 1)%R /\ (Rabs (B2R (l_sin lm x) - sin (B2R x)) <= el)%R) ->
+  forall E pr (n : Z) (i : nat), 0 <= E <= 100 -> arc_props_ok E pr -> 2 <= n <= 1000 -> Z.of_nat i <= n - 1 ->
+  let p := arc_point lm pr (D.of_Z (n - 1)) (D.mul (a_direction pr) (a_theta_range pr)) i in
+  let q := cpt (B2R (px (a_centre pr))) (B2R (py (a_centre pr))) (B2R (a_radius pr))
+               (B2R (a_theta_start pr) + INR i / IZR (n - 1) * (B2R (a_direction pr) * B2R (a_theta_range pr))) in
+  vertex_near (E_arc E el) p q.
+Proof. exact arc_point_ieee. Qed.
+Print Assumptions C17_arc_vertex_ieee.
+
+(* the emitted arc, vertex by vertex, against arc_path_R taken at the real
+   numbers the computed arc properties denote, WITH THE SAME NUMBER OF POINTS n *)
+Theorem C17_arc_vertices_ieee :
+  forall (lm : Libm) (el : R), (0 <= el)%R ->
+  (forall x : F64, is_finite x = true ->
+     is_finite (l_cos lm x) = true /\ (Rabs (B2R (l_cos lm x)) <= 1)%R /\ (Rabs (B2R (l_cos lm x) - cos (B2R x)) <= el)%R) ->
+  (forall x : F64, is_finite x = true ->
+     is_finite (l_sin lm x) = true /\ (Rabs (B2R (l_sin lm x)) <= 1)%R /\ (Rabs (B2R (l_sin lm x) - sin (B2R x)) <= el)%R) ->
+  forall E a b c pr arc, 0 <= E <= 100 ->
+  circular_arc_properties lm a b c = Done (Some pr) -> arc_props_ok E pr ->
+  approximate_circular_arc lm a b c = Done (Some arc) ->
+  let n := arc_sub_points lm pr in
+  let arcR := arc_path_R (B2R (px (a_centre pr))) (B2R (py (a_centre pr))) (B2R (a_radius pr))
+                         (B2R (a_theta_start pr)) (B2R (a_direction pr)) (B2R (a_theta_range pr)) n in
+  2 <= n < arc_subpoint_cap /\ length arc = Z.to_nat n /\ length arcR = Z.to_nat n /\
+  forall i, (i < Z.to_nat n)%nat -> vertex_near (E_arc E el) (nth i arc pos0) (nth i arcR (0, 0)%R).
+Proof. exact arc_path_ieee. Qed.
+Print Assumptions C17_arc_vertices_ieee.
+
+(* over the reals, ANY number n >= 2 of points: the chords are within the
+   sagitta sag_n of the arc and conversely (C17_arc_hausdorff is the case
+   n = arc_sub_points_R, where the sagitta is at most 4 * tolerance) *)
+Example pin_sag_n : forall r range n, sag_n r range n = (r * (1 - cos (range / (2 * IZR (n - 1)))))%R.
+Proof. reflexivity. Qed.
+
+Theorem C17_arc_hausdorff_any_count :
+  forall X Y r ts dir range : R, forall n : Z,
+  (0 <= r)%R -> (0 <= range <= 2 * PI)%R -> (dir = 1 \/ dir = -1)%R -> 2 <= n ->
+  let path := arc_path_R X Y r ts dir range n in
+  let arc := fun f : R => cpt X Y r (ts + f * (dir * range)) in
+  length path = Z.to_nat n /\
+  (forall i, (i < Z.to_nat n)%nat -> exists f, (0 <= f <= 1)%R /\ nth i path (0, 0)%R = arc f) /\
+  (forall i s, (S i < Z.to_nat n)%nat -> (0 <= s <= 1)%R ->
+     exists f, (0 <= f <= 1)%R /\
+       (dist2 (lerp2 (nth i path (0, 0)%R) (nth (S i) path (0, 0)%R) s) (arc f) <= sag_n r range n)%R) /\
+  (forall f, (0 <= f <= 1)%R ->
+     exists i s, (S i < Z.to_nat n)%nat /\ (0 <= s <= 1)%R /\
+       (dist2 (arc f) (lerp2 (nth i path (0, 0)%R) (nth (S i) path (0, 0)%R) s) <= sag_n r range n)%R).
+Proof. exact arc_hausdorff_n. Qed.
+Print Assumptions C17_arc_hausdorff_any_count.
+
+(* the emitted arc against the exact arc, both ways.  PARTIAL with respect to
+   the wanted
+     C17_arc_hausdorff_ieee: "the computed arc and the circular arc through the
+     three control points are within 4 * tol + (explicit rounding term) of each
+     other, both ways":
+   proved here -- the two-sided bound sag_n + 3/2 E_arc E el between the emitted
+   polyline and the exact arc whose centre, radius, start angle and range are
+   the real numbers the computed arc properties denote, sag_n being the
+   sagitta for the number of points n the code computed (2 <= n < 1000);
+   missing -- (i) sag_n <= 4 * tolerance for the COMPUTED n (proved for the
+   count over the reals, C17_arc_hausdorff; the computed count goes through
+   acosf, a binary32 division and ceil), (ii) the error of the computed arc
+   properties against the circle through a, b, c (circum-centre, atan2),
+   (iii) libm's accuracy (hypotheses here). *)
+Theorem C17_arc_hausdorff_ieee_partial :
+  forall (lm : Libm) (el : R), (0 <= el)%R ->
+  (forall x : F64, is_finite x = true ->
+     is_finite (l_cos lm x) = true /\ (Rabs (B2R (l_cos lm x)) <= 1)%R /\ (Rabs (B2R (l_cos lm x) - cos (B2R x)) <= el)%R) ->
+  (forall x : F64, is_finite x = true ->
+     is_finite (l_sin lm x) = true /\ (Rabs (B2R (l_sin lm x)) <= 1)%R /\ (Rabs (B2R (l_sin lm x) - sin (B2R x)) <= el)%R) ->
+  forall E a b c pr arc, 0 <= E <= 100 ->
+  circular_arc_properties lm a b c = Done (Some pr) -> arc_props_ok E pr ->
+  (0 <= B2R (a_radius pr))%R -> (B2R (a_theta_range pr) <= 2 * PI)%R ->
+  approximate_circular_arc lm a b c = Done (Some arc) ->
+  let n := arc_sub_points lm pr in
+  let X := B2R (px (a_centre pr)) in let Y := B2R (py (a_centre pr)) in let r := B2R (a_radius pr) in
+  let ts := B2R (a_theta_start pr) in let dir := B2R (a_direction pr) in let range := B2R (a_theta_range pr) in
+  let exact := fun f : R => cpt X Y r (ts + f * (dir * range)) in
+  let K := (sag_n r range n + 3 / 2 * E_arc E el)%R in
+  2 <= n < arc_subpoint_cap /\ length arc = Z.to_nat n /\ Forall pos_fin arc /\
+  (forall i, (i < Z.to_nat n)%nat ->
+     exists f, (0 <= f <= 1)%R /\ (dist2 (exact f) (posR (nth i arc pos0)) <= 3 / 2 * E_arc E el)%R) /\
+  (forall i s, (S i < Z.to_nat n)%nat -> (0 <= s <= 1)%R ->
+     exists f, (0 <= f <= 1)%R /\
+       (dist2 (exact f) (lerp2 (posR (nth i arc pos0)) (posR (nth (S i) arc pos0)) s) <= K)%R) /\
+  (forall f, (0 <= f <= 1)%R ->
+     exists i s, (S i < Z.to_nat n)%nat /\ (0 <= s <= 1)%R /\
+       (dist2 (exact f) (lerp2 (posR (nth i arc pos0)) (posR (nth (S i) arc pos0)) s) <= K)%R).
+Proof. exact arc_hausdorff_ieee. Qed.
+Print Assumptions C17_arc_hausdorff_ieee_partial.
+
+(* the hypotheses on the arc properties are satisfiable: centre (256, 192),
+   radius 100, start angle 0, range 3, counter-clockwise; E = 8 *)
+Example C17_arc_ieee_nonvacuous :
+  (S.bits (px (a_centre ex_arc_props)), S.bits (py (a_centre ex_arc_props)), S.bits (a_radius ex_arc_props),
+   D.bits (a_theta_start ex_arc_props), D.bits (a_theta_range ex_arc_props), D.bits (a_direction ex_arc_props))
+  = (1132462080, 1128267776, 1120403456, 0, 4613937818241073152, 4607182418800017408) /\
+  arc_props_ok 8 ex_arc_props.
+Proof. split; [vm_compute; reflexivity|exact ex_arc_props_ok]. Qed.
